@@ -305,6 +305,7 @@ def run(ctx):
         samples = [s for s in samples if os.path.exists(s)]
         if ctx.tier != "quick":
             samples = sorted(set(samples + glob.glob(os.path.join(common.REPO, "tests", "*.o"))))
+        samples = samples + [cp for cp, _ in dwcorr.compiler_objects(fs.dir, 4 if ctx.tier == "quick" else None)]   # compiled on the spot
         s_ok = 0
         for s in samples:
             recs, crashes = fs.query(s, [q for _, q in LAWS])
